@@ -14,11 +14,11 @@ import (
 func init() {
 	Register(&Rule{
 		ID: "C27", Section: "5 C27",
-		Technique: "witness-path analysis of chunkWriter.writeHeader (every path to the header write passes a framing witness: declared length, chunking, bodiless status/HEAD, or close-after-reply), coupling of the chunking flag with the Transfer-Encoding/Content-Length header edits, guard census, who-may-write census of chunking/closeAfterReply, path rules on chunkWriter.Write/close and response.write/finishRequest, key agreement and input coverage of the statusLine memo map",
+		Technique: "witness-path analysis of chunkWriter.writeHeader (every path to the header write passes a framing witness: declared length, chunking, bodiless status/HEAD, or close-after-reply), coupling of the chunking flag with the Transfer-Encoding/Content-Length header edits, guard census, who-may-write census of chunking/closeAfterReply, path rules on chunkWriter.Write/close and response.write/finishRequest, key agreement and input coverage of the statusLine memo map, goroutine join analysis of the periodic response flusher (start/stop coupling, blocking send on every path of Stop, who-may-write census of the stop channel with capacity 0, no Flush reachable on the stop arm)",
 		Meta: core.Meta{
 			Level:       "other",
-			Explanation: "Decides the framing decision's structure, not the bytes: (a) chunkWriter.chunking is written only by writeHeader, only with true, always together with setHeader.transferEncoding = \"chunked\" (and vice versa), only for HTTP/1.1+, non-HEAD, status not 304/204 and no surviving declared Content-Length, and every path from there to the header write deletes Content-Length; (b) every path of writeHeader that reaches the header write passes one of: declared Content-Length (contentLength != -1 still true), chunking := true, HEAD, 304, 204, closeAfterReply := true - and no path that does not chunk (other than HEAD/304) reaches the header write with a handler-supplied Transfer-Encoding still in place; a synthesised Content-Length is stored together with response.contentLength and before the hasCL test; Content-Length is deleted only under chunking, 304, or where the declared-length flag is cleared; the delHeader closure really deletes or excludes; (c) closeAfterReply is written only by writeHeader, requestTooLarge and finishRequest, reset to false only under the HTTP/1.0 keep-alive + Content-Length + Connection: keep-alive test and never after it was set; finishRequest sets it when fewer bytes than declared were written; conn.serve cannot start reading the next request while it is set; (d) chunkWriter.Write emits the chunk-size line before and CRLF after the data exactly when chunking, writes nothing for HEAD; chunkWriter.close emits the last-chunk exactly when chunking; response.write refuses bodies for 304 and beyond the declared length; finishRequest always flushes and closes the chunk writer. (e) the Status-Line memo (statusLines): a get-or-compute function of bfe_server fills a package-level map only under the key it looked up, and every parameter the cached value depends on (request version, code) is an input of that key. Not covered: the bytes on the wire, the text of the status line, body equality with the backend body, suppression of bodies for 1xx/204 in Write, header values, trailers, what the reverse proxy copies into the response header.",
-			RuleText:    "obligations = each writer of chunking/closeAfterReply/transferEncoding, each required guard of the chunking store, one witness-path query per framing clause, each Content-Length deletion, each data-write site of chunkWriter.Write/response.write, the exits of chunkWriter.close/finishRequest/delHeader, each fill of a looked-up package-level memo map (key identity, key covers the value's inputs)",
+			Explanation: "Decides the framing decision's structure, not the bytes: (a) chunkWriter.chunking is written only by writeHeader, only with true, always together with setHeader.transferEncoding = \"chunked\" (and vice versa), only for HTTP/1.1+, non-HEAD, status not 304/204 and no surviving declared Content-Length, and every path from there to the header write deletes Content-Length; (b) every path of writeHeader that reaches the header write passes one of: declared Content-Length (contentLength != -1 still true), chunking := true, HEAD, 304, 204, closeAfterReply := true - and no path that does not chunk (other than HEAD/304) reaches the header write with a handler-supplied Transfer-Encoding still in place; a synthesised Content-Length is stored together with response.contentLength and before the hasCL test; Content-Length is deleted only under chunking, 304, or where the declared-length flag is cleared; the delHeader closure really deletes or excludes; (c) closeAfterReply is written only by writeHeader, requestTooLarge and finishRequest, reset to false only under the HTTP/1.0 keep-alive + Content-Length + Connection: keep-alive test and never after it was set; finishRequest sets it when fewer bytes than declared were written; conn.serve cannot start reading the next request while it is set; (d) chunkWriter.Write emits the chunk-size line before and CRLF after the data exactly when chunking, writes nothing for HEAD; chunkWriter.close emits the last-chunk exactly when chunking; response.write refuses bodies for 304 and beyond the declared length; finishRequest always flushes and closes the chunk writer. (e) the Status-Line memo (statusLines): a get-or-compute function of bfe_server fills a package-level map only under the key it looked up, and every parameter the cached value depends on (request version, code) is an input of that key. (f) the periodic flusher is joined before the reply is finished: for every `go x.Loop()` in bfe_server/bfe_http whose receiver is a bfe_http writer (Write+Flush methods) and whose loop flushes (MaxLatencyWriter.FlushLoop, started by ReverseProxy.copyResponse when a flush interval is configured) - the starter defers (or calls on every path) a stop method of the same object next to the go statement; the stop method performs a plain blocking send on the stop channel field on every path; every channel ever stored into that field is make(chan, 0), so the send returns only when the loop has taken the signal, i.e. while it is not inside Flush; and on the arm that took the signal the loop cannot reach another Flush. Otherwise response.finishRequest flushes the same bufio buffers concurrently with a Flush in progress and entity bytes go out twice / interleaved with the last-chunk. Not covered: the bytes on the wire, the text of the status line, body equality with the backend body, suppression of bodies for 1xx/204 in Write, header values, trailers, what the reverse proxy copies into the response header.",
+			RuleText:    "obligations = each writer of chunking/closeAfterReply/transferEncoding, each required guard of the chunking store, one witness-path query per framing clause, each Content-Length deletion, each data-write site of chunkWriter.Write/response.write, the exits of chunkWriter.close/finishRequest/delHeader, each fill of a looked-up package-level memo map (key identity, key covers the value's inputs), per flusher goroutine start (coupled stop), per stop method (blocking send on all paths), per store to the stop channel field (unbuffered), per stop arm of the loop (no further Flush)",
 			Assumptions: []string{"response.contentLength != -1 means a valid Content-Length header is present (established by response.WriteHeader, checked: it is the only other writer)", "bufio never calls chunkWriter.Write with an empty slice"},
 		},
 		Run: runC27,
@@ -41,6 +41,10 @@ func init() {
 			{Name: "serve-ignores-close-flag", File: "bfe_server/http_conn.go", Old: "		if !isKeepAlive || w.closeAfterReply {\n			if w.requestBodyLimitHit {", New: "		if !isKeepAlive {\n			if w.requestBodyLimitHit {", Expect: "serve-honours-close"},
 			{Name: "status-line-looked-up-by-code", File: "bfe_server/chunk_writer.go", Old: "	line, ok := statusLines[key]\n", New: "	line, ok := statusLines[code]\n", Expect: "cache-key|"},
 			{Name: "status-line-key-ignores-version", File: "bfe_server/chunk_writer.go", Old: "	if !proto11 {\n		key = -key\n	}\n", New: "", Expect: "cache-key|"},
+			{Name: "stop-does-not-wait", File: "bfe_http/common.go", Old: "func (m *MaxLatencyWriter) Stop() {\n	m.done <- true\n}", New: "func (m *MaxLatencyWriter) Stop() {\n	select {\n	case m.done <- true:\n	default:\n	}\n}", Expect: "flush-joined|"},
+			{Name: "flush-after-stop-signal", File: "bfe_http/common.go", Old: "			if m.onExitFlushLoop != nil {\n				m.onExitFlushLoop()\n			}\n			return\n		case <-t.C:", New: "			if m.onExitFlushLoop != nil {\n				m.onExitFlushLoop()\n			}\n			m.Flush()\n			return\n		case <-t.C:", Expect: "flush-joined|"},
+			{Name: "copy-response-never-stops-flusher", File: "bfe_server/reverseproxy.go", Old: "			go mlw.FlushLoop()\n			defer mlw.Stop()\n			dst = mlw", New: "			go mlw.FlushLoop()\n			dst = mlw", Expect: "flush-joined|"},
+			{Name: "silent-flush-loop-logs", Silent: true, File: "bfe_http/common.go", Old: "		case <-t.C:\n			m.Flush()", New: "		case <-t.C:\n			if err := m.Flush(); err != nil {\n				slog.Logger.Debug(\"MaxLatencyWriter.FlushLoop(): %v\", err)\n			}"},
 			{Name: "silent-status-line-fill-helper", Silent: true, File: "bfe_server/chunk_writer.go", Old: "		statusLines[key] = line\n	}\n	return line\n}\n", New: "		slot := key\n		storeStatusLine(slot, line)\n	}\n	return line\n}\n\nfunc storeStatusLine(k int, s string) {\n	statusLines[k] = s\n}\n"},
 			{Name: "silent-reorder-and-log", Silent: true, File: "bfe_server/chunk_writer.go", Old: "		cw.chunking = true\n		setHeader.transferEncoding = \"chunked\"", New: "		setHeader.transferEncoding = \"chunked\"\n		log.Logger.Debug(\"chunked reply\")\n		cw.chunking = true"},
 		},
@@ -131,6 +135,7 @@ func h1bServeHonoursClose(c *core.Ctx, e *h1bSrv, rule string) {
 func runC27(c *core.Ctx) {
 	const srv = "bfe_server"
 	c27StatusLineCache(c)
+	c27FlushJoined(c)
 	e := h1bResolveSrv(c)
 	wh := e.writeHeader
 	all := c.P.SrcFuncs("")
